@@ -172,12 +172,12 @@ def main():
                 "name": "pbstatic",
                 "path": "/verif/pbstatic",
                 "serves_properties": ready,
-                "kind_free_text": "repository-specific static analyser (Python ast, hand-built CFGs with dominators, call graph, must-tag dataflow, term normaliser with sympy bridge, ini reader); never imports or runs pybads",
+                "kind_free_text": "repository-specific static analyser (Python ast, hand-built CFGs with dominators, call graph, must-tag dataflow, term normaliser with sympy bridge, ini reader; the parsed program is first normalised syntactically - helpers not in the confirmed inventory are inlined at their call sites, single-definition locals are dereferenced - so rules see the same shapes after an extract-method or rename refactoring); never imports or runs pybads",
             }
         ],
         "checks": checks,
         "not_applicable": sorted(na, key=lambda d: d["property_id"]),
-        "notes": "All checks are static (no execution of pybads, no solver). Exit 0 holds / 1 VIOLATION / 2 ANALYSIS-ERROR. Known findings live in /verif/known_findings.json. Thorough tier additionally runs the checker's own mutant/twin corpus on scratch copies under a temporary directory outside /repo and /verif.",
+        "notes": "All checks are static (no execution of pybads, no solver). Exit 0 holds / 1 VIOLATION / 2 ANALYSIS-ERROR. Known findings live in /verif/known_findings.json. Before the rules run, the parsed tree is normalised (pbstatic/inline.py, DESIGN.md section 3 A9): reports made inside an inlined helper name the helper and the function it was analysed in. Thorough tier additionally runs the checker's own mutant/twin corpus on scratch copies under a temporary directory outside /repo and /verif.",
     }
     with open(os.path.join(HERE, "MANIFEST.json"), "w") as fh:
         json.dump(m, fh, indent=1)
